@@ -46,24 +46,85 @@ def shared_fields_read(ctx, g, cls):
     return sorted({st["m"]["name"] for st in field_refs(g, cls)})
 
 
+def _local_defs(f, decl_id, name):
+    """every (stmt, rhs expr) that defines the local with declaration id decl_id"""
+    out = []
+    for st in f.stmts.values():
+        if st["k"] == "DeclStmt":
+            for d in st["decls"]:
+                if d.get("id") == decl_id:
+                    out.append((st, f.s(d["init"]) if d.get("init") else None))
+        elif st["k"] == "BinaryOperator" and st["op"] == "=":
+            l = unwrap(f, f.children(st)[0])
+            if l is not None and l["k"] == "DeclRefExpr" and l["d"].get("id") == decl_id:
+                out.append((st, f.children(st)[1]))
+        elif st["k"] in ("CompoundAssignOperator", "UnaryOperator") and st.get("op") in ("++", "--", "+=", "-=", "|=", "&="):
+            l = unwrap(f, f.children(st)[0])
+            if l is not None and l["k"] == "DeclRefExpr" and l["d"].get("id") == decl_id:
+                out.append((st, None))
+    return out
+
+
+def expand_loop_cond(f, cond, neg, body, wait_pos, test_pos):
+    """the loop test `cond` (negated when neg) with a tested local replaced by the expression(s) that define it:
+    list of (expr, neg).  A local is replaced only when it is recomputed inside the loop on every way from the
+    wait back to the test; otherwise the local itself is returned (it reads no shared field: a stale test)."""
+    cond = unwrap(f, cond)
+    while cond is not None and cond["k"] == "UnaryOperator" and cond["op"] == "!":
+        neg = not neg
+        cond = unwrap(f, f.children(cond)[0])
+    if cond is None:
+        return []
+    if cond["k"] == "DeclRefExpr" and cond["d"].get("k") == "local":
+        defs = _local_defs(f, cond["d"]["id"], cond["d"]["name"])
+        inloop = [(st, rhs) for st, rhs in defs if (f.pos_of(st) or (None,))[0] in body]
+        if defs and inloop and all(rhs is not None for _st, rhs in defs):
+            dpos = [tuple(f.pos_of(st)) for st, _r in inloop]
+            if wait_pos is None or test_pos is None or not f.reach_avoiding(wait_pos, test_pos, dpos):
+                out = []
+                for _st, rhs in defs:
+                    out += expand_loop_cond(f, rhs, neg, body, None, None) if _is_simple(f, rhs) else [(rhs, neg)]
+                return out
+    return [(cond, neg)]
+
+
+def _is_simple(f, e):
+    e = unwrap(f, e)
+    return e is not None and e["k"] in ("UnaryOperator", "DeclRefExpr")
+
+
 def enclosing_loop_cond_fields(f, call, cls):
-    """if the wait call sits in a loop, the fields of cls its condition reads"""
+    """if the wait call sits in a loop: (fields of cls that every form of its exit test reads, first test
+    expression, [(test expr, loop continues while it is <bool>)]) - locals in the test are traced to their
+    in-loop definition.  None when the call is not in a loop."""
     pos = f.pos_of(call)
     if pos is None:
         return None
+    best = None
     for h, body in f.loops():
-        if pos[0] in body:
-            # loop condition: terminator condition of a block in the loop with an exit edge
-            for b in body:
-                blk = f.blocks[b]
-                if blk.term and blk.term.get("cond") and any(s is not None and s not in body for s in blk.succs):
-                    cond = f.s(blk.term["cond"])
-                    names = set()
-                    for d in f.descendants(cond):
-                        if d["k"] == "MemberExpr" and d["m"].get("is_field") and d["m"].get("rec") == cls:
-                            names.add(d["m"]["name"])
-                    return sorted(names), cond
-    return None
+        if pos[0] not in body:
+            continue
+        for b in sorted(body):
+            blk = f.blocks[b]
+            if not (blk.term and blk.term.get("cond") and len(blk.succs) == 2 and
+                    any(s is not None and s not in body for s in blk.succs)):
+                continue
+            cond = f.s(blk.term["cond"])
+            stays_when_true = blk.succs[0] is not None and blk.succs[0] in body
+            forms = expand_loop_cond(f, cond, False, body, tuple(pos), (b, len(blk.elems)))
+            names = None
+            for e, _neg in forms:
+                ns = set()
+                for d in f.descendants(e):
+                    if d["k"] == "MemberExpr" and d["m"].get("is_field") and d["m"].get("rec") == cls:
+                        ns.add(d["m"]["name"])
+                names = ns if names is None else (names & ns)
+            res = (sorted(names or ()), cond, [(e, stays_when_true != neg) for e, neg in forms])
+            if best is None or (names and not best[0]):
+                best = res
+        if best is not None:
+            return best
+    return best
 
 
 def check_waits(ctx, rid, cls, cvfield, mutex, pred_fields):
